@@ -53,8 +53,10 @@ def _scn(draw):
     if tree_extra:
         # make sibling histories likely
         sibs = []
+        used = hist.top_names_used(scn)
         for n in ("sibA", "sibB", "sibC")[: tree_extra + 1]:
-            if isinstance(scn["tree"].setdefault(n, {"f": "c-" + n}), dict):
+            if n not in used:
+                scn["tree"][n] = {"f": "c-" + n}
                 sibs.append(n)
         pre = [{"op": "create", "root": n, "formats": draw(gen.formats(2)), "flags": []} for n in draw(st.permutations(sibs))]
         scn["steps"] = pre + scn["steps"]
